@@ -88,9 +88,9 @@ def gen_schema(rng, handlers=False, rich=True):
                     ks = rng.sample(names, rng.randint(1, 2)) if names else []
                     dflt = []
                     for kn in ks:
-                        dflt.append((kn, _pick_value(rng, dt, 0.1)))
+                        dflt.append((kn, _pick_default(rng, dt, 0.02)))
                         if multi and rng.random() < 0.4:
-                            dflt.append((kn, _pick_value(rng, dt, 0.0)))
+                            dflt.append((kn, _pick_default(rng, dt, 0.0)))
                 attr = "map%d" % len(children)
                 c = F.KeyD("+", dt, multi, required, dflt, attr, handler())
             else:
@@ -98,9 +98,9 @@ def gen_schema(rng, handlers=False, rich=True):
                     continue
                 n = names.pop()
                 if multi:
-                    dflt = [_pick_value(rng, dt, 0.1) for _ in range(rng.randint(1, 3))] if rng.random() < 0.5 else None
+                    dflt = [_pick_default(rng, dt, 0.02) for _ in range(rng.randint(1, 3))] if rng.random() < 0.5 else None
                 else:
-                    dflt = _pick_value(rng, dt, 0.1) if (not required and rng.random() < 0.5) else None
+                    dflt = _pick_default(rng, dt, 0.02) if (not required and rng.random() < 0.5) else None
                 attr = None
                 if kt == "ipaddr-or-hostname" or "." in n or rng.random() < 0.2:
                     attr = "at%d" % len(children)
@@ -157,6 +157,16 @@ def gen_children_ext(rng, base, types, gen_children, avail):
     if rng.random() < 0.3:
         own.append(F.KeyD("own%dm" % i, "string", True, False, ["d1"], "own%dm" % i, None))
     return own
+
+
+def _pick_default(rng, dt, pbad):
+    """schema defaults: never empty or blank (an empty <default/> element has no position in the real loader and
+    fails with TypeError when it does not convert - a schema authoring error outside every property's quantifier)"""
+    for _ in range(20):
+        v = _pick_value(rng, dt, pbad)
+        if v.strip():
+            return v
+    return "x"
 
 
 def _pick_value(rng, dt, pbad):
@@ -235,9 +245,13 @@ def gen_items(rng, elab, tyname, depth, pfill=0.75):
                     nm = "n%d" % len(usednames)
                 else:
                     nm = name
+                if nm and nm.lower() in usednames:
+                    continue
+                # the first child in schema order that claims (type, name) decides: keep the section only if that
+                # is this slot (reference slot selection, written from the property statement)
+                if claiming_child(elab, children, t, nm.lower() if nm else None) is not info:
+                    continue
                 if nm:
-                    if nm.lower() in usednames:
-                        continue
                     usednames.add(nm.lower())
                 sub = gen_items(rng, elab, t, depth - 1, pfill)
                 items.append(sect(_case_variant(rng, t) if rng.random() < 0.3 else t,
@@ -247,6 +261,26 @@ def gen_items(rng, elab, tyname, depth, pfill=0.75):
     if rng.random() < 0.5:
         rng.shuffle(items)
     return items
+
+
+def claiming_child(elab, children, ty, name):
+    """the first child, in schema order, that claims a header (type, name); None if none does or it refuses"""
+    for key, info in children:
+        if key:
+            if key == name:
+                if info[0] != "sect":
+                    return None
+                return info if ty in _implementers(elab, info[5]) else None
+        elif info[0] == "sect":
+            if info[5] == ty:
+                return info if (name or info[1] == "*") else None
+            if ty in _implementers(elab, info[5]) and _is_abstract(elab, info[5]):
+                return info
+    return None
+
+
+def _is_abstract(elab, tyname):
+    return any(n == tyname and te[0] == "abstract" for n, te in elab[1])
 
 
 def _norm(kt, k):
